@@ -22,7 +22,7 @@ META = ["plain", "target", "target_opts", "type", "target_type_opts", "device", 
 STMTS = ["noargs1", "noargs2_sq", "noargs2_rb", "noargs2_bare", "pos_num", "pos_mixed", "kw_num", "kw_list", "kw_mixed",
          "pos_kw", "measure", "measure_kw", "var_int_mode", "var_float_arg", "var_expr", "var_str_bool", "array_arg",
          "array_idx", "loop_list", "loop_repeat", "loop_range", "trailing_comma", "expr_mode", "complex_arg", "empty_args", "str_like_literals", "number_spellings",
-         "repeat_stmt", "high_index", "int_ops_in_modes", "int_divisors", "loop_index_func_kwlist"]
+         "repeat_stmt", "high_index", "int_ops_in_modes", "int_divisors", "loop_index_func_kwlist", "redeclare_after_loop"]
 
 
 class Env:
@@ -163,6 +163,12 @@ def stmt_lines(kind, env):
         a, i = env.name("W"), env.name("i")
         return ["float array %s =" % a, "    %s, %s, %s" % (lv.float(), lv.float(), lv.float()), "for int %s in [0, 1]" % i,
                 "    Gate(sin(%s[%s]), vals=[%s[%s+1]*2, -%s[%s], %s], k=%s[2*%s]) | [%s+200, %s*%s+300]" % (a, i, a, i, a, i, i, a, i, i, i, i)]
+    if kind == "redeclare_after_loop":
+        # an array indexed inside a loop, declared again with other values after the loop, indexed again outside any loop
+        a, j = env.name("R"), env.name("j")
+        return ["float array %s =" % a, "    %s, %s" % (lv.float(), lv.float()), "for int %s in [0, 1]" % j, "    Rgate(%s[%s]) | %s" % (a, j, m()),
+                "float array %s =" % a, "    %s, %s, %s" % (lv.float(), lv.float(), lv.float()),
+                "Dgate(%s[1], k=%s[0], vals=[%s[2], %s[1]]) | [%s]" % (a, a, a, a, m()), "Vac | %s" % m()]
     if kind == "repeat_stmt":
         # the same statement written twice in a row, and a third time after another one: three operations each time
         a, b, x = m(), m(), lv.float()
@@ -194,7 +200,7 @@ def gen(spec, lv):
     return {"text": text, "pre": pre}
 
 
-VARLIKE = ["var_int_mode", "var_float_arg", "var_expr", "var_str_bool", "array_arg", "array_idx", "high_index", "int_ops_in_modes", "loop_list"]
+VARLIKE = ["redeclare_after_loop", "var_int_mode", "var_float_arg", "var_expr", "var_str_bool", "array_arg", "array_idx", "high_index", "int_ops_in_modes", "loop_list"]
 
 
 def tdm_pair_specs(varlike_only=False):
